@@ -5393,13 +5393,8 @@ impl<'a> Tyck<'a> for TyEnvT<su::TermId> {
                                             TyckError::SortMismatch,
                                             std::panic::Location::caller(),
                                         )?;
-                                        let payload_kind = source_binder.payload_kind(tycker);
-                                        let abst_ty = Alloc::alloc(
-                                            tycker,
-                                            source_binder.witness,
-                                            payload_kind,
-                                            &self.info,
-                                        );
+                                        let (source_binder, abst_ty, ty_body) =
+                                            source_binder.open_k(tycker, ty_body, &self.info)?;
                                         let full_argument = source_binder
                                             .pattern
                                             .introduce_payload(tycker, abst_ty);
@@ -5490,13 +5485,8 @@ impl<'a> Tyck<'a> for TyEnvT<su::TermId> {
                                             TyckError::SortMismatch,
                                             std::panic::Location::caller(),
                                         )?;
-                                        let payload_kind = source_binder.payload_kind(tycker);
-                                        let abst_ty = Alloc::alloc(
-                                            tycker,
-                                            source_binder.witness,
-                                            payload_kind,
-                                            &self.info,
-                                        );
+                                        let (source_binder, abst_ty, ty_body) =
+                                            source_binder.open_k(tycker, ty_body, &self.info)?;
                                         let full_argument = source_binder
                                             .pattern
                                             .introduce_payload(tycker, abst_ty);
